@@ -1,9 +1,92 @@
 import CotengraVerif.Driver.Util
+import CotengraVerif.Model.Sims
+import CotengraVerif.Model.HyperGraph
 
 namespace Cotengra.Driver.C18
 open Lean Cotengra Cotengra.Driver
 
-/-- ops of property C18 (name them "c18.<op>") -/
-def handlers : List (String × Handler) := []
+def pairsOfPath (j : Json) : Except String (List (Nat × Nat)) := pairList j
+
+/-- op `c18.anneal`: `compute_contracted_info(legsa, legsb, appearances, size_dict)` -/
+def anneal : Handler := fun j => do
+  let n ← netOf (← field j "net")
+  let a ← pairList (← field j "legsa")
+  let b ← pairList (← field j "legsb")
+  let (l, c, s) := Anneal.info n a b
+  pure (jObj [("legs", jPairs l), ("cost", jNat c), ("size", jNat s)])
+
+def jState (s : Proc.State) : Json :=
+  jObj [("nodes", jArr (s.nodes.map fun (k, l) => Json.arr #[jNat k, jPairs l])),
+        ("edges", jArr (s.edges.map fun (k, l) => Json.arr #[jNat k, jNats l])),
+        ("ssa", jNat s.ssa), ("flops", jNat s.flops), ("path", jNatss s.path)]
+
+/-- op `c18.proc`: `ContractionProcessor(inputs, output, size_dict, track_flops=True)`, optionally
+    `simplify_batch()` and `simplify_single_terms()`, then `contract_nodes(i, j)` along `path`.
+    Reports the state after the simplifications and, per step, the operand legs, the new legs,
+    the size of the new node and the running flops. -/
+def proc : Handler := fun j => do
+  let n ← netOf (← field j "net")
+  let path ← natListList (← field j "path")
+  let batch := match j.getObjVal? "batch" with | .ok (.bool b) => b | _ => false
+  let single := match j.getObjVal? "single" with | .ok (.bool b) => b | _ => false
+  let s0 := Proc.init n.inputs
+  let removed := if batch then Proc.batchIxs s0 else []
+  let s1 := if batch then Proc.simplifyBatch s0 else s0
+  let s2 := if single then Proc.simplifySingleTerms n.app s1 else s1
+  let rec go (s : Proc.State) (p : List (List Nat)) (acc : List Json) : List Json × Proc.State × Bool :=
+    match p with
+    | [] => (acc, s, true)
+    | [a] :: rest =>
+      -- a single-term simplification step `(i,)` of the path
+      match Proc.popNode s a with
+      | none => (acc, s, false)
+      | some (legs, s') =>
+        let (k, s'') := Proc.addNode s' (Proc.simplified n.app legs)
+        go { s'' with path := s''.path ++ [[a]] } rest
+          (acc ++ [jObj [("k", jNat k), ("legs", jPairs ((Proc.lookup s''.nodes k).getD []))]])
+    | [a, b] :: rest =>
+      match Proc.contractNodes n.app n.size s a b with
+      | none => (acc, s, false)
+      | some (k, il, jl, s') =>
+        let nl := (Proc.lookup s'.nodes k).getD []
+        go s' rest (acc ++ [jObj [("k", jNat k), ("ilegs", jPairs il), ("jlegs", jPairs jl),
+          ("legs", jPairs nl), ("size", jNat (Proc.size n.size nl)),
+          ("step_flops", jNat (Proc.flops n.size il jl)), ("flops", jNat s'.flops)]])
+    | _ :: _ => (acc, s, false)
+  let (steps, sf, ok) := go s2 path []
+  pure (jObj [("init", jState s0), ("batch_removed", jNats removed), ("simplified", jState s2),
+              ("steps", jArr steps), ("ok", jBool ok), ("flops", jNat sf.flops)])
+
+def jHG (h : HG) : Json :=
+  jObj [("nodes", jArr (h.nodes.map fun (k, l) => Json.arr #[jNat k, jNats l])),
+        ("edges", jArr (h.edges.map fun (k, l) => Json.arr #[jNat k, jNats l])),
+        ("sizes", jPairs h.sizeDict)]
+
+/-- op `c18.hg`: `HyperGraph(inputs, output, size_dict)` then `contract(i, j)` along `path`; per step
+    the figures read *before* the contraction (`contract_pair_cost`, `compute_contracted_inds`,
+    `candidate_contraction_size`) and the new node afterwards. -/
+def hg : Handler := fun j => do
+  let n ← netOf (← field j "net")
+  let path ← pairsOfPath (← field j "path")
+  let h0 := HG.ofInputs n.inputs n.output n.sizes
+  let rec go (h : HG) (p : List (Nat × Nat)) (acc : List Json) : List Json × HG × Bool :=
+    match p with
+    | [] => (acc, h, true)
+    | (a, b) :: rest =>
+      let cost := h.contractPairCost a b
+      let pred := h.computeContractedInds [a, b]
+      let cand := h.candidateContractionSize a b none
+      match h.contract a b with
+      | none => (acc, h, false)
+      | some (k, h') =>
+        go h' rest (acc ++ [jObj [("k", jNat k), ("inds", jNats (h'.getNode k)),
+          ("size", jNat (h'.nodeSize k)), ("cost", jNat cost), ("predicted_inds", jNats pred),
+          ("candidate_size", jNat cand)]])
+  let (steps, hf, ok) := go h0 path []
+  pure (jObj [("init", jHG h0), ("steps", jArr steps), ("ok", jBool ok), ("final", jHG hf),
+              ("leaf_sizes", jNats (h0.nodes.map fun kv => h0.nodeSize kv.1))])
+
+def handlers : List (String × Handler) :=
+  [("c18.anneal", anneal), ("c18.proc", proc), ("c18.hg", hg)]
 
 end Cotengra.Driver.C18
